@@ -128,7 +128,12 @@ def check(case):
                     hit.get_at_distance(Unit[q["decoy_unit"]](number))
                 except DELIBERATE:
                     pass
-            ds = hit.danger_space(_q(at_ft, q["unit"], pref), D.Inch(h_in), **kw)
+            try:
+                ds = hit.danger_space(_q(at_ft, q["unit"], pref), D.Inch(h_in), **kw)
+            except DELIBERATE as exc:
+                r.bad("C16:raises-for-a-range-within-the-trajectory", f"query {q}: {type(exc).__name__}: {exc} although the trajectory has a row at "
+                      f"{far / 12.0!r} ft, beyond the requested {at_ft!r} ft")
+                break
             half = ds.target_height.raw_value / 2.0
             if abs(ds.target_height.raw_value - h_in) > 1e-9 * h_in:
                 r.bad("C16:target-height-misread", f"explicit target height {h_in!r} in reported as {ds.target_height.raw_value!r} in")
